@@ -52,11 +52,23 @@ func (c epConf) route(def string) string {
 	return "/" + strings.TrimPrefix(p, "/")
 }
 
+// pathUnescaped is the path a server derives from an advertised location whose path is percent-encoded ("" when it
+// cannot be decoded).
+func pathUnescaped(p string) string {
+	u, err := url.PathUnescape(p)
+	if err != nil {
+		return ""
+	}
+	return u
+}
+
 func randEp(rng *rand.Rand, used map[string]bool, name string) epConf {
 	for {
 		c := epConf{Mode: []string{"default", "default", "path", "path_noslash", "url"}[rng.Intn(5)]}
 		seg := func() string {
-			return []string{"a", "sso", "x-y", "v1.2", "Caps", "under_score", "t~"}[rng.Intn(7)] + plainString(rng, 3)
+			// now and then a segment that is percent-encoded on the wire (a client requests the advertised location
+			// escaped, the server hands the handler the decoded path)
+			return []string{"a", "sso", "x-y", "v1.2", "Caps", "under_score", "t~", "pr\u00fcfen", "single sign on", "\u540d\u524d", "a(b)", "it's"}[rng.Intn(12)] + plainString(rng, 3)
 		}
 		switch c.Mode {
 		case "path":
@@ -252,7 +264,7 @@ func c11Case(r *core.Run, idx int, rng *rand.Rand) {
 				}
 				return got[0].Location
 			}
-			if !strings.HasPrefix(got[0].Location, base) || got[0].Location[len(base):] != c.route(def) {
+			if !strings.HasPrefix(got[0].Location, base) || (got[0].Location[len(base):] != c.route(def) && pathUnescaped(got[0].Location[len(base):]) != c.route(def)) {
 				viol(mv.Call, "advertised_"+kind, fmt.Sprintf("Location %q does not map onto the route %q under issuer %q", got[0].Location, c.route(def), issuer))
 			}
 			return got[0].Location
@@ -534,7 +546,7 @@ func init() {
 		Build: func(c *Ctx) []core.Workload {
 			r := c.Run
 			r.Rule = "random provider configurations (static issuer with / without path / trailing slash, host-, path- and Forwarded-derived issuers with several hosts; each endpoint default / custom path with or without leading slash / external URL; metadata endpoint; WantAuthRequestsSigned in {'',false,0,true,1,TRUE,yes}; encryption algorithm, organisation, contact, validity / caching, metadata signing, time layout). Per configuration and host the metadata is fetched, parsed (expat, library decoder), and compared with behaviour: entityID vs Issuer of SSO error replies, callback assertions, LogoutResponses and attribute-query responses; advertised locations vs routes via positive probes (a conformant request to the route must be handled by the right handler); KeyDescriptor = certificate endpoint = key verifying a fresh assertion; WantAuthnRequestsSigned advertised true <=> unsigned requests refused on both bindings; finally storage switches to another response signing key and metadata, certificate endpoint and a fresh assertion must all follow. Distinct = configuration class."
-			r.Assume("route paths are drawn from URL-safe characters and are pairwise distinct; external URLs are only compared textually")
+			r.Assume("route paths are pairwise distinct and free of %, ?, # (some need percent-encoding on the wire: non-ASCII, blanks); external URLs are only compared textually")
 			r.Require("metadata_documents", int64(c.Pick(200, 3000)))
 			r.Require("sso_probe_accepted", 100)
 			r.Require("issuer_checked_assertion", 100)
